@@ -222,6 +222,41 @@ def gen_cases(rng, n, tier):
                 cases.append({"kind": "point_along_no_segment" if not segs else "point_along_zero_length", "v": pts,
                               "closed": closed, "fs": fs, "single": len(fs) == 1 and rng.random() < 0.5})
                 continue
+            if rng.random() < 0.3:
+                # boundary stream: every boundary fraction {0, 1, exact vertex positions} x {leading / inner / trailing
+                # zero-length segment} x open / closed, rational lengths (so that f * L hits the vertices exactly or
+                # within one rounding; the result is continuous in f, so either side is the same point)
+                bclosed = rng.random() < 0.5
+                bpts = _pyth_closed(rng, sc) if bclosed else _pyth_polyline(rng, sc)
+                bpts = [p for i, p in enumerate(bpts) if i == 0 or p != bpts[i - 1]]        # start without repeats
+                if bclosed and len(bpts) > 1 and bpts[-1] == bpts[0]:
+                    bpts = bpts[:-1]
+                where = rng.sample(["leading", "inner", "trailing"], rng.randint(1, 3))
+                if "inner" in where and len(bpts) > 2:
+                    j = rng.randrange(1, len(bpts) - 1)
+                    bpts = bpts[:j + 1] + [list(bpts[j])] * rng.randint(1, 2) + bpts[j + 1:]
+                if "leading" in where:
+                    bpts = [list(bpts[0])] * rng.randint(1, 2) + bpts
+                if "trailing" in where:
+                    # open: repeated last vertex; closed: the last vertex equals the first (zero-length closing edge)
+                    bpts = bpts + ([list(bpts[0])] if bclosed else [list(bpts[-1])] * rng.randint(1, 2))
+                bsegs = _segs(bpts, bclosed)
+                blens = [math.dist(p, q2) for p, q2 in bsegs]
+                btotal = sum(blens)
+                if btotal <= 0:
+                    continue
+                cum, cands = 0.0, [0.0, 1.0]
+                for ln in blens:
+                    cum += ln
+                    cands.append(min(1.0, cum / btotal))
+                single = rng.random() < 0.4
+                fs = [rng.choice([0.0, 0.0, 1.0, rng.choice(cands)])] if single else \
+                    [0.0, 1.0] + [rng.choice(cands) for _ in range(rng.randint(1, 3))]
+                if not single:
+                    rng.shuffle(fs)
+                cases.append({"kind": "point_along_boundary" + ("_closed" if bclosed else "_open"), "v": bpts,
+                              "closed": bclosed, "fs": fs, "single": single})
+                continue
             if total <= 0:
                 continue
             r = rng.random()
